@@ -10,6 +10,7 @@ import (
 	"strings"
 	"sync"
 	"sync/atomic"
+	"time"
 
 	fpgo "github.com/TeaEntityLab/fpGo/v2"
 
@@ -596,14 +597,50 @@ func c20Patterns(e *c20Env) {
 			}
 		}
 	})
-	// NewCompData returns a value iff its arguments match the declared type
-	tuples := [][]any{{}, {5}, {"s"}, {"s", 1}, {1, "s"}, {nil}, {nilInt}, {c20S{1}}, {&c20S{1}}, {[]int{1}, map[int]int{}}, {[]int{1}}, {5, 5}, {5.0}, {nil, nil}}
+	// NewCompData returns a value iff its arguments match the declared type; sum types may be nested in every grouping
+	pI, pSI, pB, pF := fpgo.DefProduct(reflect.Int), fpgo.DefProduct(reflect.String, reflect.Int), fpgo.DefProduct(reflect.Bool), fpgo.DefProduct(reflect.Float64)
+	sumD := c20SumModel{products: [][]reflect.Kind{{reflect.Int}, {reflect.String, reflect.Int}, {reflect.Bool}, {reflect.Float64}}, hasNil: true}
+	type namedCT struct {
+		name string
+		ct   fpgo.CompType
+		m    c20SumModel
+	}
+	cts := []namedCT{{"A", ctA, sumA}, {"B", ctB, sumB}, {"Nil", ctC, sumC},
+		{"D flat", fpgo.DefSum(pI, pSI, pB, pF, fpgo.NilType), sumD},
+		{"D nested first", fpgo.DefSum(fpgo.DefSum(pI, pSI), pB, pF, fpgo.NilType), sumD},
+		{"D nested middle", fpgo.DefSum(pI, fpgo.DefSum(pSI, pB), pF, fpgo.NilType), sumD},
+		{"D nested last", fpgo.DefSum(pI, pSI, pB, fpgo.DefSum(pF, fpgo.NilType)), sumD},
+		{"D nested three first", fpgo.DefSum(fpgo.DefSum(pI, pSI, pB), pF, fpgo.NilType), sumD},
+		{"D two levels", fpgo.DefSum(fpgo.DefSum(fpgo.DefSum(pI, pSI), pB), pF, fpgo.NilType), sumD},
+		{"D two nested", fpgo.DefSum(fpgo.DefSum(pI, pSI), fpgo.DefSum(pB, pF), fpgo.NilType), sumD},
+		{"D singletons", fpgo.DefSum(fpgo.DefSum(pI), fpgo.DefSum(pSI), pB, fpgo.DefSum(pF), fpgo.DefSum(fpgo.NilType)), sumD},
+	}
+	tuples := [][]any{{}, {5}, {"s"}, {"s", 1}, {1, "s"}, {nil}, {nilInt}, {c20S{1}}, {&c20S{1}}, {[]int{1}, map[int]int{}}, {[]int{1}}, {5, 5}, {5.0}, {nil, nil}, {true}, {false}, {1.5}, {true, 1}, {uint(1)}}
+	// the nested groupings also as InCaseOfSumType patterns: the first accepting pattern is the sum, whatever its grouping
+	for _, ct := range cts[3:] {
+		for _, t := range tuples {
+			if len(t) != 1 {
+				continue
+			}
+			ct, t := ct, t
+			e.run("InCaseOfSumType(nested sum)", fmt.Sprintf("type %s value %v", ct.name, t[0]), true, func() string {
+				var got any
+				pv, _ := core.Catch(func() {
+					got = fpgo.Either(t[0], fpgo.InCaseOfSumType(ct.ct, func(x interface{}) interface{} { return "sum" }), fpgo.Otherwise(func(x interface{}) interface{} { return "otherwise" }))
+				})
+				want := "otherwise"
+				if ct.m.matchesValues([]any{c20Deref(t[0])}) {
+					want = "sum"
+				}
+				if pv != nil || got != want {
+					return fmt.Sprintf("Either chose %v (panic %v), want %q", got, pv, want)
+				}
+				return ""
+			})
+		}
+	}
 	for _, t := range tuples {
-		for _, ct := range []struct {
-			name string
-			ct   fpgo.CompType
-			m    c20SumModel
-		}{{"A", ctA, sumA}, {"B", ctB, sumB}, {"Nil", ctC, sumC}} {
+		for _, ct := range cts {
 			t, ct := t, ct
 			e.run("NewCompData", fmt.Sprintf("type %s values %v", ct.name, t), true, func() string {
 				got := fpgo.NewCompData(ct.ct, t...)
@@ -785,6 +822,66 @@ func c20CurryMarkDoneInside(id string, goroutines, doneAt int, seed int64) core.
 	}}
 }
 
+// an incremental fold: the function consults its own CurryDef (Result / IsDone) while it is being invoked by Call,
+// sequentially and with concurrent callers. Every Call returns, Result ends as the fold over all invocations.
+func c20CurryResultInside(id string, goroutines, callsEach int, generic bool) core.Scenario {
+	return core.Scenario{ID: id, Class: "CurryDef.concurrent", Run: func(c *core.Ctx) {
+		c.Eval(int64(goroutines * callsEach))
+		c.Distinct(id)
+		rep := map[string]any{"scenario": id, "goroutines": goroutines, "calls_each": callsEach, "generic_api": generic}
+		var call func(v int)
+		var result func() int
+		invocations := 0
+		if generic {
+			cur := fpgo.CurryNewGenerics(func(cd *fpgo.CurryDef[int, int], args ...int) int {
+				invocations++
+				if cd.IsDone() {
+					return -1
+				}
+				return cd.Result() + len(args)
+			})
+			call = func(v int) { cur.Call(v) }
+			result = cur.Result
+		} else {
+			cur := fpgo.CurryNew(func(cd *fpgo.CurryDef[interface{}, interface{}], args ...interface{}) interface{} {
+				invocations++
+				prev, _ := cd.Result().(int)
+				return prev + len(args)
+			})
+			call = func(v int) { cur.Call(v) }
+			result = func() int { r, _ := cur.Result().(int); return r }
+		}
+		done := make(chan struct{})
+		go func() {
+			defer close(done)
+			var wg sync.WaitGroup
+			for g := 0; g < goroutines; g++ {
+				wg.Add(1)
+				go func(g int) {
+					defer wg.Done()
+					for k := 0; k < callsEach; k++ {
+						call(g*100 + k)
+					}
+				}(g)
+			}
+			wg.Wait()
+		}()
+		v, dump := core.AwaitOrStuck(done, 2*time.Second, 60*time.Second, func() int64 { return 0 })
+		if v == "stuck" {
+			c.Violationf("CurryDef:Call-never-returns", map[string]any{"scenario": id, "goroutines": core.RepoGoroutineSummary(dump)}, "a curried function that reads its own CurryDef's Result()/IsDone() while being invoked: Call never returns (%d goroutines x %d calls)", goroutines, callsEach)
+			return
+		}
+		if v != "done" {
+			c.Inconclusive("watchdog in " + id)
+			return
+		}
+		n := goroutines * callsEach
+		if invocations != n || result() != n*(n+1)/2 {
+			c.Violationf("CurryDef:fold-over-own-result", rep, "%d Calls of one argument each, fn returns Result()+len(args): fn ran %d times, Result()=%d, want %d and %d", n, invocations, result(), n, n*(n+1)/2)
+		}
+	}}
+}
+
 func init() {
 	core.Register(&core.Check{
 		ID: "C20",
@@ -792,7 +889,7 @@ func init() {
 			return core.Meta{
 				Level: "exploration",
 				Rule: "Compose/Pipe: all 5460 function lists of length 1..6 over 4 distinguishable non-commuting functions x 3 argument tuples, output compared with the fold, Compose(fs)=Pipe(reverse fs), every regrouping; adapters with recording functions; Trampoline with scripted done/error at step 1..12; CurryDef sequentially (1..6 calls x MarkDone position) and concurrently (2..8 goroutines, unique chunks, chain oracle; repeated in the -race build); " +
-					"patterns: every permutation of every subset of the five pattern kinds (326 lists) x 3 parameterisations x ~40 probe values of every kind through MatchFor/Either against the harness' own acceptance model (first accepting pattern's effect, applied to the value, panic iff none); NewCompData against the declared type. distinct_nontrivial = enumerated cases (distinct by construction) + distinct concurrent scenarios",
+					"patterns: every permutation of every subset of the five pattern kinds (326 lists) x 3 parameterisations x ~40 probe values of every kind through MatchFor/Either against the harness' own acceptance model (first accepting pattern's effect, applied to the value, panic iff none); NewCompData and InCaseOfSumType against the declared type, for flat sums and for 7 nested groupings of the same five alternatives (nested first / middle / last, two levels, two nested, singletons); CurryDef whose function reads its own Result()/IsDone() while invoked (1..16 goroutines, termination by the stuck detector). distinct_nontrivial = enumerated cases (distinct by construction) + distinct concurrent scenarios",
 				Assumptions: []string{"MatchFor replaces a non-nil pointer-to-struct probe by its pointee before matching and applying (pinned, DESIGN.md C20)",
 					"nil values incl. typed nil pointers never match a Kind pattern; a CompData value is matched through its objects only",
 					"Equal patterns hold comparable values", "Calls concurrent with MarkDone may or may not be counted; Calls begun after MarkDone returned must not invoke fn"},
@@ -814,6 +911,9 @@ func init() {
 				n = c.Pick(60, 1500)
 			}
 			var out []core.Scenario
+			for i := 0; i < 12; i++ {
+				out = append(out, c20CurryResultInside(fmt.Sprintf("curry-result-inside-%d-race%v", i, race), []int{1, 1, 2, 4, 8, 16}[i%6], 1+i%5, i%2 == 0))
+			}
 			for i := 0; i < n; i++ {
 				g := 2 + i%7
 				calls := 1 + (i/7)%12
